@@ -906,7 +906,10 @@ def _propagate(ctx, f, res: Result, selfp: T, tpar: T, mode: str):
             if e.data["base"] is selfp and e.data["name"] == M]
     ok3 = False
     every = []
-    setm = [e for e in setm if not tm.is_const(e.live, False)]
+    # (stores of transform() itself; a lazy getter that materialises the
+    # matrices on the way is not the result)
+    setm = [e for e in setm if not tm.is_const(e.live, False) and
+            (e.depth == 0 or e.func is f)]
     for e in setm:
         ok3 = False
         v = e.data["value"]
